@@ -39,9 +39,45 @@ units = [
 ]
 "#;
 
+/// time units that cannot be found under any English minutes key, and a metre whose symbol is `m`
+const NOMINUTES_UNITS: &str = r#"
+[[quantity]]
+quantity = "volume"
+best = ["litro"]
+units = [ { names = ["litro", "litros"], symbols = ["lt"], ratio = 1 } ]
+[[quantity]]
+quantity = "mass"
+best = ["gramo"]
+units = [ { names = ["gramo", "gramos"], symbols = ["gr"], ratio = 1 } ]
+[[quantity]]
+quantity = "temperature"
+best = ["grado"]
+units = [ { names = ["grado", "grados"], symbols = ["gd"], ratio = 1 } ]
+[[quantity]]
+quantity = "length"
+best = ["metro"]
+units = [
+    { names = ["metro", "metros"], symbols = ["m"], ratio = 1 },
+    { names = ["kilometro"], symbols = ["km"], ratio = 1000 },
+    { names = ["pie", "feet"], symbols = ["ft"], ratio = 0.3048 },
+]
+[[quantity]]
+quantity = "time"
+best = ["segundo", "minuto", "hora"]
+units = [
+    { names = ["segundo", "segundos"], symbols = ["sg"], ratio = 1 },
+    { names = ["minuto", "minutos"], symbols = ["mn"], ratio = 60 },
+    { names = ["hora", "horas"], symbols = ["hr"], ratio = 3600 },
+]
+"#;
+
 pub fn converter_named(name: &str) -> Converter {
     match name {
         "empty" | "e" => Converter::empty(),
+        "nominutes" => {
+            let f: UnitsFile = toml::from_str(NOMINUTES_UNITS).expect("nominutes units file");
+            Converter::builder().with_units_file(f).expect("add").finish().expect("finish nominutes converter")
+        }
         "renamed" => {
             let f: UnitsFile = toml::from_str(RENAMED_UNITS).expect("renamed units file");
             Converter::builder().with_units_file(f).expect("add").finish().expect("finish renamed converter")
@@ -104,11 +140,13 @@ fn metadata_accessor(key: &str, m: &cooklang::Metadata, conv: &Converter) -> Val
     }
 }
 
-pub fn doc_text(key: &str, val: &str, style: &str) -> String {
+/// `extra`: other entries (key: value lines) written before the entry under test
+pub fn doc_text(key: &str, val: &str, style: &str, extra: &[(String, String)]) -> String {
+    let pre: String = extra.iter().map(|(k, v)| if style == "old" { format!(">> {k}: {v}\n") } else { format!("{k}: {v}\n") }).collect();
     match style {
-        "old" => format!(">> {key}: {val}\nstep\n"),
-        "yamlstring" => format!("---\n{key}: \"{}\"\n---\nstep\n", val.replace('\\', "\\\\").replace('"', "\\\"")),
-        _ => format!("---\n{key}: {val}\n---\nstep\n"),
+        "old" => format!("{pre}>> {key}: {val}\nstep\n"),
+        "yamlstring" => format!("---\n{pre}{key}: \"{}\"\n---\nstep\n", val.replace('\\', "\\\\").replace('"', "\\\"")),
+        _ => format!("---\n{pre}{key}: {val}\n---\nstep\n"),
     }
 }
 
@@ -116,7 +154,7 @@ pub fn doc_text(key: &str, val: &str, style: &str) -> String {
 pub fn main(args: &[String]) {
     let recs = read_ndjson(req_arg(args, "--in"));
     let convs: std::collections::HashMap<&str, Converter> =
-        ["bundled", "empty", "renamed"].iter().map(|c| (*c, converter_named(c))).collect();
+        ["bundled", "empty", "renamed", "nominutes"].iter().map(|c| (*c, converter_named(c))).collect();
     let out: Vec<Value> = recs
         .par_iter()
         .map(|r| {
@@ -124,7 +162,10 @@ pub fn main(args: &[String]) {
             let val = json_chunks_to_string(&r["val"]);
             let style = r["style"].as_str().unwrap();
             let conv = &convs[r["conv"].as_str().unwrap()];
-            let text = doc_text(key, &val, style);
+            let extra: Vec<(String, String)> = r.get("extra").and_then(|e| e.as_array()).map(|a| {
+                a.iter().map(|p| (p[0].as_str().unwrap_or("").to_string(), p[1].as_str().unwrap_or("").to_string())).collect()
+            }).unwrap_or_default();
+            let text = doc_text(key, &val, style, &extra);
             let parser = CooklangParser::new(Extensions::all(), conv.clone());
             let mut o = r.clone();
             o["text"] = json!(text);
